@@ -236,7 +236,7 @@ int main(int argc, char** argv) {
         for (int rep = 0; rep < 3; ++rep) {
             std::vector<Spec> np; np.push_back(Spec{false, false, true, false, 0, {Contrib{0, 1, 200000}}});
             np.push_back(Spec{false, rep == 1, true, false, 0, {Contrib{0, 7, 1}}});
-            runCase(1, np, rep == 2 ? 4 : 0, 8, opsOf(std::string(10, 'v')), "ta");
+            runCase(1, np, rep == 2 ? 4 : 0, 8, opsOf(std::string(30, 'v')), "ta");
             std::vector<Spec> wp = np; wp.push_back(Spec{true, false, true, false, 0, {Contrib{0, 1000, 1}}});
             runCase(1, wp, rep == 2 ? 4 : 0, 8, opsOf(std::string(5, 'v')), "ta");
         }
@@ -278,7 +278,7 @@ int main(int argc, char** argv) {
         size_t nextEnable = 0; std::vector<bool> cur; for (auto& s : specs) cur.push_back(s.enabled);
         for (int k = 0; k < nreal; ++k) {
             if (k > 0) {
-                int ntog = g.below(3);
+                int ntog = g.below(5) < 2 ? 1 + g.below(2) : 0;      // toggles invalidate the cache: keep a NonCached share
                 for (int t = 0; t < ntog; ++t) {
                     int f;
                     // prefer enabling forces that were disabled by default (in random order), else toggle a random one
